@@ -19,32 +19,52 @@ RL, ZL = (1.0, 2.0), (-0.7, 0.7)
 
 
 def funcs(lobes, sign):
+    """psi, grad, hess of the analytic family.  A lobe is [amp, R0, Z0, w] (round Gaussian) or [amp, R0, Z0, wu, wv, theta_deg] (elliptical
+    Gaussian with principal axes rotated by theta); ["quad", Rc, Zc, k] is sign*((R-Rc)^2 + k (Z-Zc)^2) and
+    ["quadrot", Rc, Zc, a, b, theta_deg] is sign*(a u^2 + b v^2) in coordinates rotated by theta (a cubic spline reproduces both exactly)."""
     if lobes and lobes[0][0] == "quad":
-        # pure quadratic: sign * ((R - Rc)^2 + k (Z - Zc)^2); k < 0 gives an X-point.  A cubic spline reproduces it exactly.
         _, Rc, Zc, k = lobes[0]
         return ((lambda R, Z: sign * ((R - Rc) ** 2 + k * (Z - Zc) ** 2)),
                 (lambda R, Z: (sign * 2 * (R - Rc), sign * 2 * k * (Z - Zc))),
                 (lambda R, Z: (sign * 2.0, 0.0, sign * 2.0 * k)))
+    if lobes and lobes[0][0] == "quadrot":
+        _, Rc, Zc, a, b, th = lobes[0]
+        c, sn = np.cos(np.radians(th)), np.sin(np.radians(th))
+        hRR, hRZ, hZZ = 2 * (a * c * c + b * sn * sn), 2 * (a - b) * c * sn, 2 * (a * sn * sn + b * c * c)
+        return ((lambda R, Z: sign * 0.5 * (hRR * (R - Rc) ** 2 + 2 * hRZ * (R - Rc) * (Z - Zc) + hZZ * (Z - Zc) ** 2)),
+                (lambda R, Z: (sign * (hRR * (R - Rc) + hRZ * (Z - Zc)), sign * (hRZ * (R - Rc) + hZZ * (Z - Zc)))),
+                (lambda R, Z: (sign * hRR, sign * hRZ, sign * hZZ)))
+
+    def parts(lobe):
+        if len(lobe) == 4:
+            a, r, z, w = lobe
+            return a, r, z, 1.0 / w ** 2, 0.0, 1.0 / w ** 2
+        a, r, z, wu, wv, th = lobe
+        c, sn = np.cos(np.radians(th)), np.sin(np.radians(th))
+        # q = qRR dR^2 + 2 qRZ dR dZ + qZZ dZ^2
+        return a, r, z, c * c / wu ** 2 + sn * sn / wv ** 2, c * sn / wu ** 2 - c * sn / wv ** 2, sn * sn / wu ** 2 + c * c / wv ** 2
+
+    P = [parts(lb) for lb in lobes]
 
     def psi(R, Z):
-        return sign * sum(a * np.exp(-((R - r) ** 2 + (Z - z) ** 2) / w ** 2) for a, r, z, w in lobes)
+        return sign * sum(a * np.exp(-(qrr * (R - r) ** 2 + 2 * qrz * (R - r) * (Z - z) + qzz * (Z - z) ** 2)) for a, r, z, qrr, qrz, qzz in P)
 
     def grad(R, Z):
         gR = gZ = 0.0
-        for a, r, z, w in lobes:
-            e = a * np.exp(-((R - r) ** 2 + (Z - z) ** 2) / w ** 2)
-            gR = gR + e * (-2 * (R - r) / w ** 2)
-            gZ = gZ + e * (-2 * (Z - z) / w ** 2)
+        for a, r, z, qrr, qrz, qzz in P:
+            e = a * np.exp(-(qrr * (R - r) ** 2 + 2 * qrz * (R - r) * (Z - z) + qzz * (Z - z) ** 2))
+            gR = gR - e * (2 * qrr * (R - r) + 2 * qrz * (Z - z))
+            gZ = gZ - e * (2 * qrz * (R - r) + 2 * qzz * (Z - z))
         return sign * gR, sign * gZ
 
     def hess(R, Z):
         hRR = hZZ = hRZ = 0.0
-        for a, r, z, w in lobes:
-            e = a * np.exp(-((R - r) ** 2 + (Z - z) ** 2) / w ** 2)
-            dR, dZ = -2 * (R - r) / w ** 2, -2 * (Z - z) / w ** 2
-            hRR += e * (dR * dR - 2 / w ** 2)
-            hZZ += e * (dZ * dZ - 2 / w ** 2)
-            hRZ += e * dR * dZ
+        for a, r, z, qrr, qrz, qzz in P:
+            e = a * np.exp(-(qrr * (R - r) ** 2 + 2 * qrz * (R - r) * (Z - z) + qzz * (Z - z) ** 2))
+            dR, dZ = 2 * qrr * (R - r) + 2 * qrz * (Z - z), 2 * qrz * (R - r) + 2 * qzz * (Z - z)
+            hRR += e * (dR * dR - 2 * qrr)
+            hZZ += e * (dZ * dZ - 2 * qzz)
+            hRZ += e * (dR * dZ - 2 * qrz)
         return sign * hRR, sign * hRZ, sign * hZZ
 
     return psi, grad, hess
@@ -148,6 +168,9 @@ def run(c):
         # position given as (node index, fraction of the cell) so that half-cell positions are exactly equidistant from two nodes
         _, iR, fr, jZ, fz, k = c["lobes"][0]
         c = dict(c, lobes=[["quad", float(r1[iR] + fr * (r1[iR + 1] - r1[iR])), float(z1[jZ] + fz * (z1[jZ + 1] - z1[jZ])), k]])
+    if c["lobes"] and c["lobes"][0][0] == "quadrotnode":
+        _, iR, fr, jZ, fz, a, b, th = c["lobes"][0]
+        c = dict(c, lobes=[["quadrot", float(r1[iR] + fr * (r1[iR + 1] - r1[iR])), float(z1[jZ] + fz * (z1[jZ + 1] - z1[jZ])), a, b, th]])
     psi, grad, hess = funcs(c["lobes"], sign)
     R2, Z2 = np.meshgrid(r1, z1, indexing="ij")
     psi2 = psi(R2, Z2)
